@@ -105,9 +105,16 @@ theorem C14_failed_fit {S T : Type} (A : Api S T) (o : Obj S T) (x : S) :
   ⟨fit_not_1d A o x, fun e h1 h => fit_raises A o x e h1 h⟩
 
 open Obj in
-/-- threshold / burst option edits and attribute reads keep the table and the signal. -/
+open Obj in
+/-- `plot` changes nothing - not the stored dictionaries (it is handed the object's own `thresholds`), not the signal, not the table - and
+succeeds exactly when a table and a signal are there. -/
+theorem C14_plot {S T : Type} (A : Api S T) (o : Obj S T) :
+    (step A o .plot).1 = o ∧ ((step A o .plot).2 = .done ↔ (o.df.isSome = true ∧ o.sig.isSome = true)) := plot_spec A o
+
+open Obj in
+/-- threshold / burst option edits, attribute reads and plots keep the table and the signal. -/
 theorem C14_table_kept {S T : Type} (A : Api S T) (o : Obj S T) (op : Op S T)
-    (h : match op with | .edit .. => True | .rebind .. => True | .editbk .. => True | .attr .. => True | _ => False) :
+    (h : match op with | .edit .. => True | .rebind .. => True | .editbk .. => True | .attr .. => True | .plot => True | _ => False) :
     (step A o op).1.df = o.df ∧ (step A o op).1.sig = o.sig := table_kept A o op h
 
 /-! ## `BycycleGroup` as a state machine (BycycleModel/GroupMachine.lean) -/
